@@ -80,6 +80,7 @@ func (v *Verifier) verifyFunc(fn *ssa.Function, fc *FuncContract) (res *FuncResu
 		}
 		c.assumeTypeInv(t, fv.Type(), st)
 		fr.freeVars = append(fr.freeVars, t)
+		fr.registerImmCell(fv, t)
 	}
 	fr.recovers = hasRecover(fn)
 	isInit := fn.Name() == "init" && fn.Synthetic != ""
